@@ -1067,7 +1067,19 @@ func c02drain(c *an.Ctx) {
 	// the goroutine closes its channel after the loop
 	if f := c.Fn("C02.drain", "(*lexer).run"); f != nil {
 		ok := false
-		for _, l := range f.Lits {
+		// the bodies of the goroutines run starts: literals, or functions/methods started by name
+		bodies := append([]*an.Fn(nil), f.Lits...)
+		an.InspectOwn(f, func(n ast.Node) bool {
+			if g, isGo := n.(*ast.GoStmt); isGo {
+				if _, isLit := an.Unparen(g.Call.Fun).(*ast.FuncLit); !isLit {
+					if b := p.FnOfValue(info, g.Call.Fun); b != nil && b.Body != nil {
+						bodies = append(bodies, b)
+					}
+				}
+			}
+			return true
+		})
+		for _, l := range bodies {
 			x := p.NewExplorer(l, an.Hooks{Call: func(x *an.Explorer, call *ast.CallExpr, st *an.State) {
 				if an.CalleeName(info, call) == "builtin.close" && p.FieldKey(info, call.Args[0]) == "lexer.items" {
 					st.Set("closed", "1")
